@@ -64,7 +64,7 @@ def check_alias_table(run: Run, lm: lexmodel.LexModel) -> None:
         run.instance("R03.1", lx.relpath, f"alias {alias!r} -> {k_alias}; canonical {canon!r} -> {k_canon}", ok=ok)
         if not ok:
             run.violation("R03.1", lx, "<module>", f"ASCII_ALIASES[{alias!r}]", f"the alias {alias!r} lexes as {k_alias} but its canonical form {canon!r} as {k_canon}: the two spellings do not converge on the same token")
-    ok = "value = ASCII_ALIASES[matched_text]" in src
+    ok = any(isinstance(n, ast.Assign) and isinstance(n.value, ast.Subscript) and isinstance(n.value.value, ast.Name) and n.value.value.id == "ASCII_ALIASES" and isinstance(n.value.slice, ast.Name) for n in walk_no_nested(fi.node))
     run.instance("R03.1", lx.loc(fi.node), "tokenize replaces an alias by ASCII_ALIASES[matched_text]", ok=ok)
     if not ok:
         run.violation("R03.1", lx, "tokenize", "value = ASCII_ALIASES[matched_text]", "tokenize no longer replaces the matched alias by its table entry")
@@ -177,8 +177,12 @@ def check_emitter_profile(run: Run, lm: lexmodel.LexModel) -> None:
     # ---- envelope and final newline
     fi = em.func("emit")
     top = fi.node.body  # type: ignore[attr-defined]
-    name_line = any(isinstance(s, ast.Expr) and _text(s).startswith("lines.append(f'==={doc.name}===')") for s in top)
-    end_line = any(isinstance(s, ast.Expr) and _text(s) == "lines.append('===END===')" for s in top)
+    def _appended(st):
+        if isinstance(st, ast.Expr) and isinstance(st.value, ast.Call) and isinstance(st.value.func, ast.Attribute) and st.value.func.attr == "append" and st.value.args:
+            return st.value.args[0]
+        return None
+    name_line = any(isinstance(_appended(s), ast.JoinedStr) and len(_appended(s).values) == 3 and isinstance(_appended(s).values[0], ast.Constant) and _appended(s).values[0].value == "===" and isinstance(_appended(s).values[2], ast.Constant) and _appended(s).values[2].value == "===" and _text(_appended(s).values[1].value).endswith(".name") for s in top)
+    end_line = any(isinstance(_appended(s), ast.Constant) and _appended(s).value == "===END===" for s in top)
     nl = any(isinstance(s, ast.If) and "endswith('\\n')" in _text(s.test) and "not" in _text(s.test) and any(isinstance(b, ast.AugAssign) and _text(b.value) == "'\\n'" for b in s.body) for s in top)
     for what, ok in (("===NAME=== appended unconditionally", name_line), ("===END=== appended unconditionally", end_line), ("final newline appended when missing", nl)):
         run.instance("R03.4", em.loc(fi.node), f"emit(): {what}", ok=ok)
@@ -236,11 +240,17 @@ def check_structure_detection(run: Run, lm: lexmodel.LexModel) -> None:
     w = run.project.mod("mcp.write")
     fi = w.func("WriteTool.execute")
     found = {}
+    # the two detectors are recognised by what they search for (a line of '===...===', a line-leading 'KEY::'), not by the
+    # names of the locals they are stored in
     for n in walk_no_nested(fi.node):
-        if isinstance(n, ast.Assign) and len(n.targets) == 1 and isinstance(n.targets[0], ast.Name) and n.targets[0].id in ("envelope_line", "assignment_line"):
+        if isinstance(n, ast.Assign) and len(n.targets) == 1 and isinstance(n.targets[0], ast.Name):
             for c in ast.walk(n.value):
-                if isinstance(c, ast.Call) and _text(c.func) in ("re.search", "re.match") and c.args and isinstance(c.args[0], ast.Constant):
-                    found[n.targets[0].id] = (c.args[0].value, n)
+                if isinstance(c, ast.Call) and _text(c.func) in ("re.search", "re.match") and c.args and isinstance(c.args[0], ast.Constant) and isinstance(c.args[0].value, str):
+                    pat0 = c.args[0].value
+                    if "^" in pat0 and "===" in pat0:
+                        found["envelope_line"] = (pat0, n)
+                    elif "^" in pat0 and pat0.rstrip(")").endswith("::"):
+                        found["assignment_line"] = (pat0, n)
     if set(found) != {"envelope_line", "assignment_line"}:
         raise AnalysisError(f"WriteTool.execute: structure-detection regexes not found ({sorted(found)})")
     env_pat = next(p for p, k in lm.token_patterns if k == "ENVELOPE_START")
